@@ -153,10 +153,11 @@ def step (st : Option KV.TrieLM.Trie) (line : String) : Option KV.TrieLM.Trie ×
         (some (KV.TrieLM.ofLayout (natOfBytes bs) q a cfg counts ll.search), s!"ok search={ll.search} bytes={bs.length}")
       | _, _ => (st, "bad-op")
     | _, _, _ => (st, "bad-op")
-  | "triebuild" :: order :: bound :: start :: rest =>
-    -- triebuild order bound start  ids:p:b …  realhex     (all n-grams with float bits; search region of the real file)
-    match order.toNat?, bound.toNat?, start.toNat?, rest.getLast? with
-    | some order, some bound, some start, some hex =>
+  | "triebuild" :: order :: bound :: start :: unk :: rest =>
+    -- triebuild order bound start unkbits  ids:p:b …  realhex   (the n-grams of the ARPA file with float bits — no <unk> record
+    -- unless the file lists it; unkbits = unknown_missing_logprob; search region of the real file)
+    match order.toNat?, bound.toNat?, start.toNat?, unk.toNat?, rest.getLast? with
+    | some order, some bound, some start, some unk, some hex =>
       let grams := rest.dropLast.mapM fun t =>
         match t.splitOn ":" with
         | [ids, p, b] =>
@@ -166,7 +167,7 @@ def step (st : Option KV.TrieLM.Trie) (line : String) : Option KV.TrieLM.Trie ×
         | _ => none
       match grams, hexToBytes hex with
       | some gs, some bs =>
-        match KV.TrieBuild.buildTable KV.TrieBuild.f32add order gs with
+        match KV.TrieBuild.buildTableArpa KV.TrieBuild.f32add order gs unk with
         | .error e => (st, s!"tb err {repr e}")
         | .ok b =>
           let M := KV.TrieLM.ofTable b.table bound order start
@@ -179,7 +180,7 @@ def step (st : Option KV.TrieLM.Trie) (line : String) : Option KV.TrieLM.Trie ×
             let low := Nat.log2 (x - (x &&& (x - 1)))
             (some M, s!"tb ok counts={commaSep b.counts} blanks={b.blanks.length} represents={rep} diff byte={low / 8 - start} model={(M.mem >>> (8 * (low / 8))) % 256} real={(real >>> (8 * (low / 8))) % 256}")
       | _, _ => (st, "bad-op")
-    | _, _, _, _ => (st, "bad-op")
+    | _, _, _, _, _ => (st, "bad-op")
   | "triecheck" :: order :: toks =>
     -- triecheck order  ids:p:b:begin:end …  (middle/unigram keys)   ids:p (longest keys); ids comma separated, reversed n-gram
     match st, order.toNat? with
